@@ -6,7 +6,7 @@
    what the API calls returned, and which socket I/O happened during the step.
 
    For every trace this monitor
-     hard  : evaluates the Rules of RespLife (StateRule on every logged observation, TransRule on every pair of
+     hard  : evaluates the Rules of RespLife (StateFails on every logged observation, TransFails on every pair of
              consecutive ones, the end-of-run clauses) -- the SAME operators TLC checks on the model;
      drift : runs the Model alongside (same step functions, the logged thread / call as the only input) and
              compares ObsOf(model state) with every logged observation; the first mismatch is reported with the
@@ -74,7 +74,8 @@ Advance ==
          c == TransFails(o, o2) \cup StateFails(o2)
          st == Traces[tid].steps[l]
          ms == ModelStep(st[1], st[2])
-         df == IF ms.ok THEN DiffField(o2, ObsOf(ms.s, ms.T)) ELSE "disabled"
+         mo == ObsOf(ms.s, ms.T)
+         df == IF ~ms.ok THEN "disabled" ELSE IF mo = o2 THEN "none" ELSE DiffField(o2, mo)
      IN /\ bad' = Note(bad, c, l + 1)
         /\ IF drift # 0 THEN UNCHANGED <<sh, th, drift, dfield>>
            ELSE IF df = "none" THEN sh' = ms.s /\ th' = ms.T /\ UNCHANGED <<drift, dfield>>
